@@ -18,7 +18,7 @@ ASSUMPTIONS = ['no schedule dimension: threads take turns statement by statement
 PROBES = ['read_after_foreign_write', 'instance_replaced', 'instance_copied']
 PLAN = {
   'quick': {'strata': {'instances': 4000}, 'wall_s': 300, 'chunk': 100, 'min_conclusive': 1000},
-  'thorough': {'strata': {'instances': 80000}, 'wall_s': 600, 'chunk': 250, 'min_conclusive': 10000},
+  'thorough': {'strata': {'instances': 80000}, 'wall_s': 600, 'chunk': 250, 'min_conclusive': 1000},
 }
 
 
